@@ -43,6 +43,14 @@ func main() {
 		fmt.Fprintf(os.Stderr, "gntranslate: %v\n", err)
 		os.Exit(1)
 	}
+	// C16 / C17: type-checked passes over neat/genetics and everything it imports from the repository
+	prog, err := loadProg(*repo, []string{"neat/genetics"})
+	if err != nil {
+		fmt.Fprintf(os.Stderr, "gntranslate: %v\n", err)
+		os.Exit(1)
+	}
+	files["Access.lean"] = translateAccess(prog)
+	files["NonDet.lean"] = translateNonDet(prog)
 	for name, content := range files {
 		if err := writeIfChanged(filepath.Join(*out, name), []byte(content)); err != nil {
 			fmt.Fprintf(os.Stderr, "gntranslate: %v\n", err)
